@@ -284,6 +284,30 @@ def linspace(start, stop, num, endpoint=True, dtype=None):
     return np.linspace(start, stop, num, endpoint=endpoint, dtype=dtype)
 
 
+def linspace_block(start, stop, step, offset, size, num, endpoint=True, dtype=None):
+    """Elements ``offset : offset + size`` of ``np.linspace(start, stop, num)``.
+
+    Every element is computed from its global index exactly as NumPy does
+    (``index * step + start``, the last one pinned to ``stop``), so the values do
+    not depend on how the array is chunked.
+    """
+    from dask.array.core import Array
+
+    if isinstance(start, Array):
+        start = start.compute()
+
+    if isinstance(stop, Array):
+        stop = stop.compute()
+
+    dt = np.result_type(start, stop, float(num))
+    y = np.arange(offset, offset + size, dtype=dt) * step + start
+    if endpoint and num > 1 and size > 0 and offset + size == num:
+        y[-1] = stop
+    if np.issubdtype(dtype, np.integer):
+        np.floor(y, out=y)
+    return y.astype(dtype, copy=False)
+
+
 def astype(x, astype_dtype=None, **kwargs):
     return x.astype(astype_dtype, **kwargs)
 
